@@ -25,10 +25,12 @@ Contract(W, 'WebSession.redirect_tracker', S, ret=TObj('RedirectTracker'), prop=
 Assumed('wpull/protocol/http/client.py', 'Client.session', {'self': TObj('HTTPClient')}, name='HTTPClient.session', ret=TObj('HTTPSession'), raises={})
 NET = {'ServerError': [], 'ProtocolError': [], 'NetworkError': [], 'SSLVerificationError': []}
 Assumed('wpull/protocol/http/client.py', 'Session.start', {'self': TObj('HTTPSession'), 'request': TObj('HTTPRequest')}, name='HTTPSession.start',
+        requires=[('connectable', 'request._url_info is not None and truthy(request._url_info.hostname) and request._url_info.port is not None', {'C09'})],
         ret=TObj('HTTPResponse'), ensures=['result.request == request', 'result.status_code is not None'], raises=NET,
         note='one HTTP request on the wire; `response.request = request` (client.py); verified for framing under C04/C08')
 VISIT_INV = [J, '%s >= 0' % R, 'self.g_auth_retries >= 0', 'self.g_auth_retries <= 1', 'implies(self.g_auth_retries >= 1 and self._next_request is not None, self._loop_type == %s)' % AUTH,
              'implies(self._next_request is not None, self._next_request._url_info is not None)',
+             'implies(self._next_request is not None, truthy(self._next_request._url_info.hostname) and self._next_request._url_info.port is not None)',
              'truthy(self._original_request.method)', 'truthy(self._original_request.version)', 'self._original_request._url_info is not None', 'self.g_requests >= 0']
 Contract(W, 'WebSession.start', S, ret=TObj('HTTPResponse'), prop='C18',
     requires=VISIT_INV + ['self._next_request is not None'],
@@ -40,11 +42,12 @@ Contract(W, 'WebSession.start', S, ret=TObj('HTTPResponse'), prop='C18',
              ('variant', 'implies(self._next_request is not None, %s < old(%s) and %s >= 0)' % (M, M, M)),
              ('J', J), ('counter', '%s >= old(%s)' % (R, R)), ('original-keeps-its-url', 'self._original_request._url_info == old(self._original_request._url_info)'),
              ('next-has-url', 'implies(self._next_request is not None, self._next_request._url_info is not None)'),
+             ('next-is-connectable', 'implies(self._next_request is not None, truthy(self._next_request._url_info.hostname) and self._next_request._url_info.port is not None)', {'C09'}),
              ('auth-once', 'self.g_auth_retries <= 1 and implies(self.g_auth_retries >= 1, self._loop_type == %s or self._next_request is None)' % AUTH),
              ('ghost-nonneg', 'self.g_auth_retries >= 0'),
              ('pending-means-intermediate', 'implies(self._next_request is not None, redirect_or_auth(self))'),
              ('status', 'result.status_code is not None')],
-    raises=dict(NET, AssertionError=[]))
+    raises=dict(NET, AssertionError=[]), escape_props={'C18', 'C09'})
 
 # ---- WebProcessorSession ------------------------------------------------------------------------------------------------------
 declare_class('WebProcessor', {'_fetch_params': TObj('FetchParams'), '_web_client': TObj('WebClient')})
@@ -144,7 +147,7 @@ Contract(P_, 'WebProcessorSession._fetch_one', dict(PS, request=TObj('HTTPReques
              ('flags', 'implies(not %s._processed, not %s._try_count_incremented)' % (IS, IS)),
              ('pending-unprocessed', 'implies(not result[0] and %s._next_request is not None, not %s._processed)' % (WS, IS)),
              ('error-ends-visit', 'implies(result[0], %s._processed)' % IS)] + [('inv%d' % k, 'implies(not result[0], %s)' % x) for k, x in enumerate(SESS_INV)],
-    raises={'AssertionError': [], 'SSLVerificationError': []})
+    raises={'AssertionError': [], 'SSLVerificationError': []}, escape_props={'C18', 'C02', 'C09'})
 
 # ---- _process_loop: the visit terminates (variant), every request is approved first (typestate), ends in a final state -----------
 lib.MODFUNCS['asyncio.sleep'] = lambda ex, st, node, *a, **k: VNone()
@@ -159,4 +162,4 @@ Contract(P_, 'WebProcessorSession._process_loop', PS, prop='C18/C02',
                              ('unprocessed-while-pending', 'implies(%s._next_request is not None, not %s._processed)' % (WS, IS))],
                'decreases': '(%s + 1 if %s._next_request is not None else 0)' % (MW, WS)}},
     ensures=[('ends', 'True')],
-    raises={'AssertionError': [], 'SSLVerificationError': []})
+    raises={'AssertionError': [], 'SSLVerificationError': []}, escape_props={'C18', 'C02', 'C09'})
